@@ -60,6 +60,12 @@ def legality():
                 if ctx == "publish":
                     q = n % 3
                     steps.append({"e": "publish", "qos": q, "topic": b("l/%d" % n), "payload": b("p%d" % n), "props": p})
+                    # ... and attached to a correlated publication (another representation of the property set;
+                    # not Correlation Data itself: twice in one packet is the application's contradiction)
+                    if kind != 0x09:
+                        steps += POLLS
+                        steps.append({"e": "publish", "qos": (q + 1) % 3, "topic": b("lc/%d" % n), "payload": b("p%d" % n), "props": p,
+                                      "corr": [n % 251, 7], "corr_first": bool(n % 2)})
                 elif ctx == "subscribe":
                     steps.append({"e": "subscribe", "filters": [{"topic": b("l/%d/#" % n), "qos": n % 3}], "props": p})
                 else:
@@ -157,9 +163,26 @@ def shapes():
             for d in (-1, 0, 1):
                 steps.append({"e": "publish", "qos": q, "topic": b("a"), "payload": [i % 251 for i in range(fit + d)]})
                 steps += POLLS
-        # a field longer than 65535 bytes cannot be encoded at all
         progs.append({"cfg": {"rx": 128, "tx": tx, "ka": 0, "sei": 0, "client_id": b("shs%d" % tx), "name": "shapes-small-%d" % tx},
                       "steps": steps})
+    # a field longer than 65535 bytes cannot be encoded at all: the largest field that can, and one and two bytes more
+    # (binary fields; a topic beyond the limit is only ever refused, so nothing has to be decoded)
+    steps = []
+    for q in (0, 1):
+        for n in (65535, 65536, 65537):
+            steps.append({"e": "publish", "qos": q, "topic": b("f"), "payload": b("x"), "props": [],
+                          "corr": [(i * 3 + n) % 251 for i in range(n)]})
+            steps += POLLS
+        for n in (65536, 65537):
+            steps.append({"e": "publish", "qos": q, "topic": [0x61 + (i % 26) for i in range(n)], "payload": b("x"), "props": []})
+            steps += POLLS
+            steps.append({"e": "publish", "qos": q, "topic": b("f"), "payload": b("x"),
+                          "props": [prop(0x26, {"s": b("k"), "t": [0x61 + (i % 26) for i in range(n)]})]})
+            steps += POLLS
+    steps.append({"e": "subscribe", "props": [], "filters": [{"topic": [0x61 + (i % 26) for i in range(65536)], "qos": 1}]})
+    steps.append({"e": "unsubscribe", "props": [], "topics": [[0x61 + (i % 26) for i in range(65536)]]})
+    steps += POLLS
+    progs.append({"cfg": {"rx": 128, "tx": 140000, "ka": 0, "sei": 0, "client_id": b("shfld"), "name": "shapes-fields"}, "steps": steps})
     return progs
 
 
